@@ -544,23 +544,23 @@ class ResourceQuerySegment(object):
         else:
             return rqs
 
-    def _query_to_absolute(self, path, processed, rest):
+    def _query_to_absolute(self, path, processed, rest, started=False):
+        # started tells "nothing consumed yet" (anchor at path) apart from "back at the root"
         if len(rest) == 0:
             return processed
         if rest[0].encode() == ".":
-            if len(processed) == 0:
-                return self._query_to_absolute(path, path[:], rest[1:])
+            if not started:
+                return self._query_to_absolute(path, path[:], rest[1:], True)
             else:
-                return self._query_to_absolute(path, processed, rest[1:])
+                return self._query_to_absolute(path, processed, rest[1:], True)
 
         if rest[0].encode() == "..":
+            if not started:
+                processed = path[:]
             if len(processed) == 0:
-                if len(path) == 0:
-                    raise Exception("Can't go up from root")
-                return self._query_to_absolute(path, path[:-1], rest[1:])
-            else:
-                return self._query_to_absolute(path, processed[:-1], rest[1:])
-        return self._query_to_absolute(path, processed + [rest[0]], rest[1:])
+                raise Exception("Can't go up from root")
+            return self._query_to_absolute(path, processed[:-1], rest[1:], True)
+        return self._query_to_absolute(path, processed + [rest[0]], rest[1:], True)
 
     def to_absolute(self, path):
         """Convert relative path to absolute path.
